@@ -6,6 +6,7 @@
 import Drx.Lscr
 import Drx.Lscr.LitEval
 import DrxProofs.LscrConst
+import DrxProofs.LscrLingoStr
 namespace Drx.C11
 open Drx Drx.Lscr
 
@@ -22,7 +23,7 @@ def StringOk (bs : Bytes) : Prop :=
     evalLingoLit (lingoLit (.s (escapeString s))) = some s ∧ evalJsLit (jsLit (.s (escapeString s))) = some s
 
 /-- C11 for strings at full strength. It does NOT hold (findings F15–F17: see the witnesses below); what holds is
-    `js_string` for every byte string and `lingo_string_partial` on the decidable domain `LingoPlainBytes`. -/
+    `js_string` for every byte string and `lingo_string_partial` on the decidable domain `LingoSafe`. -/
 def C11_strings_full : Prop := ∀ bs : Bytes, StringOk bs
 
 /-! ### tables -/
@@ -111,6 +112,58 @@ theorem lingo_string_plain (s : Str) (h : ∀ c ∈ s, plainChar c = true) :
 
 example : evalLingoLit (lingoLit (.s (escapeString (S "String constant")))) = some (S "String constant") :=
   lingo_string_plain _ (by decide)
+
+/-- a safe byte decodes (Mac-Roman) to a safe character -/
+theorem safeByte_safeChar : ∀ n, n < 256 → lingoSafeByte (UInt8.ofNat n) = true →
+    (match decodeByte .macRoman (UInt8.ofNat n) with | some c => safeChar c | none => false) = true := by
+  decide +kernel
+
+theorem safeChars_of_LingoSafe (bs : Bytes) (hb : LingoSafe bs) (s : Str) (hd : decodeText .macRoman bs = .ok s) :
+    ∀ c ∈ s, safeChar c = true := by
+  revert s
+  induction bs with
+  | nil => intro s hd; simp [decodeText, pure, Except.pure] at hd; subst hd; simp
+  | cons b bs ih =>
+    intro s hd
+    simp only [decodeText, List.mapM_cons, bind, Except.bind] at hd ih
+    have hb0 : lingoSafeByte b = true := hb b (by simp)
+    have hbs : LingoSafe bs := fun x hx => hb x (by simp [hx])
+    have hsb := safeByte_safeChar b.toNat (UInt8.toNat_lt b) (by simpa using hb0)
+    simp only [UInt8.ofNat_toNat] at hsb
+    cases hdb : decodeByte .macRoman b with
+    | none => rw [hdb] at hd; simp at hd
+    | some ch =>
+      rw [hdb] at hd hsb
+      simp only at hd hsb
+      generalize hr : List.mapM (fun b => match decodeByte Codec.macRoman b with | some ch => Except.ok ch | none => Except.error Err.unicode) bs = r at hd
+      cases r with
+      | error e => simp at hd
+      | ok r =>
+        simp only [pure, Except.pure, Except.ok.injEq] at hd
+        subst hd
+        intro c hc
+        simp only [List.mem_cons] at hc
+        rcases hc with rfl | hc
+        · exact hsb
+        · exact ih hbs r hr c hc
+
+/-- C11 for strings on the decidable domain `LingoSafe` (printable ASCII other than the backslash, BACKSPACE, ENTER, RETURN,
+    TAB — the complement of findings F15–F17), for every length: BOTH literals evaluate to the string. -/
+theorem lingo_string_partial (bs : Bytes) (hb : LingoSafe bs) : StringOk bs := by
+  intro s hd
+  exact ⟨evalLingoLit_constLingo_safe s (safeChars_of_LingoSafe bs hb s hd), js_string bs s hd⟩
+
+/-- in terms of text: any string of safe characters -/
+theorem lingo_string_safe_text (s : Str) (hs : ∀ c ∈ s, safeChar c = true) :
+    evalLingoLit (lingoLit (.s (escapeString s))) = some s :=
+  evalLingoLit_constLingo_safe s hs
+
+/-- non-vacuity: quotes, all four named control characters, `& "` before a named character (the old F18 shape) -/
+example : evalLingoLit (lingoLit (.s (escapeString (S "a\"b\t\r& \"" ++ [Char.ofNat 8, Char.ofNat 3] ++ S "\"\"")))) =
+    some (S "a\"b\t\r& \"" ++ [Char.ofNat 8, Char.ofNat 3] ++ S "\"\"") :=
+  lingo_string_safe_text _ (by decide)
+
+example : LingoSafe [0x61, 0x22, 0x09, 0x08, 0x26, 0x20, 0x22, 0x0D] := by decide
 
 /-! ### witnesses of the open findings (the full statement fails) -/
 
